@@ -274,6 +274,32 @@ for nf in ([1, 2, 3] if Q else [1, 2, 3, 4, 5]):
                               "returns the values of the previous frequency",
                               {"numfreq": nf, "n": n, "keys": keys, "frequencies": freqs, "f_a": f_a, "f_b": f_b, "asked_first_at_f_b": sorted(first),
                                "asked_then": k_, "got": got_h.get(k_), "fresh_object": fresh_h[k_]})
+        # HISTORY: matrices handed to the caller are the caller's own; normalising them in place must not change the data
+        # the object answers with afterwards (single- and multi-frequency data alike)
+        f_h = float(freqs[0])
+        pristine_h = {k_: np.array(sub[k_], copy=True) for k_ in keys}     # (the object may hold `sub`'s arrays themselves)
+        with warnings.catch_warnings():
+            warnings.simplefilter("ignore")
+            got1 = obj.as_single_freq_matrices(f_h, n)
+            for k_ in list(got1):
+                try:
+                    got1[k_] *= 0.0
+                    got1[k_] += 17.0
+                except ValueError:
+                    pass
+            got2 = obj.as_single_freq_matrices(f_h, n)
+            res2 = obj(inc_g, out_g, f_h)
+        evaluations += 1
+        chk.count(data_history="matrices returned to the caller edited in place")
+        for k_ in keys:
+            sc_ = np.max(np.abs(pristine_h[k_]))
+            if not np.allclose(got2[k_], pristine_h[k_][0], rtol=0, atol=1e-9 * sc_) or \
+                    not np.allclose(res2[k_], pristine_h[k_][0], rtol=0, atol=1e-9 * sc_):
+                chk.violation("data:caller-edit", "ScatFromData no longer reproduces its data after the caller edited in place the matrices "
+                              "returned by as_single_freq_matrices", {"numfreq": nf, "n": n, "key": k_, "frequency": f_h})
+                break
+        for k_ in keys:                      # whatever happened, go on with the pristine data
+            sub[k_][...] = pristine_h[k_]
         # MAT round trip
         import scipy.io as sio
         for shape in ("row", "col", "flat"):
